@@ -427,19 +427,22 @@ func checkContinuity(c *mon.Ctx, stage string, idx int64, hr *HistRun) {
 		}
 		sawTables := false
 		for o := cl.Start; o+188 <= cl.End; o += 188 {
-			p, err := refts.DecodePacket(hr.Out[o : o+188])
-			if err != nil {
-				return // C04's subject
+			// the trace checker reads the three header fields it needs straight from the bytes (whether the rest of the packet is
+			// well-formed is C04's subject; a malformed packet still reaches the receiver's continuity check)
+			raw := hr.Out[o : o+188]
+			if raw[0] != 0x47 {
+				return // not a packet boundary any more: C04's subject
 			}
-			pid := p.Header.PID
+			pid := uint16(raw[1]&0x1f)<<8 | uint16(raw[2])
+			hasPayload := raw[3]&0x10 != 0
 			if pid == 0 {
 				sawTables = true
 			}
-			if !tracked(pid, cl) || !p.Header.HasPayload {
+			if !tracked(pid, cl) || !hasPayload {
 				continue
 			}
 			c.Count("payload_packets_tracked")
-			cc := int(p.Header.ContinuityCounter)
+			cc := int(raw[3] & 15)
 			if l, ok := last[pid]; ok {
 				if cc != (l+1)&15 {
 					kind := "es"
